@@ -160,6 +160,10 @@ pub fn run(scenario: u32, choices: &[u8], _strict: bool) -> Outcome {
   };
   let msi: Option<usize> = if matches!(history, Some(policy::History::KeepAll)) && c.chance(80) {
     Some(c.usize_in(1, 3))
+  } else if !matches!(history, Some(policy::History::KeepAll)) && c.chance(60) {
+    // KeepLast(depth) (or the default) together with a ROOMIER max_samples_per_instance: the
+    // depth still bounds what remains available
+    Some(depth.unwrap_or(1) + c.usize_in(1, 4))
   } else {
     None
   };
